@@ -268,6 +268,32 @@ def genstate(job, which, method):
             if not job.confirm('generator output independent of earlier use', not bad):
                 job.violation('state-leak', dict(key='C09:gen:%s:remembered-state-leaks' % which, kind='gen', which=which, method=method,
                                                  leaked=sorted(bad), kw={k: str(v) for k, v in kw.items()}))
+    # the bare call g(x) uses the documented default arguments (forward, n=1, order=2), whatever the generator was used for before
+    for kw in (dict(), dict(num_extrap=2, offset=1)):
+        for (m0, n0, o0) in (('central', 2, 4), ('complex', 3, 2)):
+            def harness_b():
+                with tr.traced(extra=[(sg, 'get_base_step', lambda scale: sn.Sym(ufb(sn.lift(scale) if sn.is_sym(scale) else sn.ratval(scale))))]):
+                    g = cls(**kw)
+                    list(g(xp, m0, n0, o0))
+                    return list(g(x)), list(cls(**kw)(x)), list(cls(**kw)(x, 'forward', 1, 2))
+            exb = sn.Explorer(harness_b, max_paths=256, timeout_ms=20000)
+            for pb in exb.paths():
+                job.paths += 1
+                if pb.exc is not None:
+                    if isinstance(pb.exc, sn.Unsupported):
+                        raise pb.exc
+                    job.violation('raises', dict(key='C09:gen:raises:%s' % type(pb.exc).__name__, kind='gen', exc=repr(pb.exc)[:200]))
+                    continue
+                b1, b2, b3 = pb.result
+                ok = len(b1) == len(b2) == len(b3)
+                if ok:
+                    for u, w, t3 in zip(b1, b2, b3):
+                        u, w, t3 = (cm.flat_list(v)[0] for v in (u, w, t3))
+                        ok = ok and z3.is_true(z3.simplify(z3.And(sn.lift(u) == sn.lift(w), sn.lift(w) == sn.lift(t3))))
+                if not job.confirm('bare call after other use == fresh bare call == (forward, 1, 2)', bool(ok)):
+                    job.violation('bare', dict(key='C09:gen:%s:bare-call-depends-on-earlier-use' % which, kind='genbare', which=which, method=method,
+                                               earlier=[m0, n0, o0], lens=[len(b1), len(b2), len(b3)]))
+            job.absorb_explorer(exb)
     job.twin('assumptions', assume)
 
 
@@ -619,6 +645,18 @@ def replay(cex):
                     return True, '%s reused after (x=%r, n=%d, order=%d) yields %r for (x=%r, %s, n=%d, order=%d); a fresh generator yields %r' % (
                         cls.__name__, xp, npv, opv, a[:3], x, method, n, o, b[:3])
         return False, 'reused generator == fresh generator on the probes'
+    if kind == 'genbare':
+        sgm = mods['sg']
+        cls_ = sgm.MinStepGenerator if cex['which'] == 'min' else sgm.MaxStepGenerator
+        for kw in (dict(), dict(num_extrap=2, offset=1)):
+            for (m0, n0, o0) in (('central', 2, 4), ('complex', 3, 2)):
+                g = cls_(**kw)
+                list(g(0.7, m0, n0, o0))
+                a, b = list(g(1.5)), list(cls_(**kw)(1.5))
+                if len(a) != len(b) or any(float(u) != float(w) for u, w in zip(a, b)):
+                    return True, ('%s(%s): after a use with (%s, n=%d, order=%d) the bare call g(1.5) yields %r, a fresh generator %r'
+                                  % (cls_.__name__, kw, m0, n0, o0, [float(v) for v in a][:4], [float(v) for v in b][:4]))
+        return False, 'bare call independent of earlier use'
     if kind == 'fresh':
         bad, _n = fresh_interpreter_failures()
         return (True, bad[0]) if bad else (False, 'results do not depend on other objects')
